@@ -3,6 +3,8 @@ package message
 import (
 	"context"
 	"sync"
+
+	"github.com/ThreeDotsLabs/watermill/verifhook"
 )
 
 // MessageTransformSubscriberDecorator creates a subscriber decorator that calls transform
@@ -51,9 +53,11 @@ func (t *messageTransformSubscriberDecorator) Subscribe(ctx context.Context, top
 	go func() {
 		for msg := range in {
 			t.transform(msg)
+			verifhook.At("decorator.sub.before_out", msg.UUID, verifhook.Name(ctx))
 			out <- msg
 		}
 		close(out)
+		verifhook.At("decorator.sub.closed", verifhook.Name(ctx))
 		t.subscribeWg.Done()
 	}()
 
